@@ -175,12 +175,16 @@ def eval_model(module_imports, exprs, wd, name='cases', timeout=900):
     files = []
     for si in range(0, len(exprs), shard):
         part = exprs[si:si + shard]
-        lines = ['From Coq Require Import String ZArith List.', 'Import ListNotations.', 'Open Scope string_scope.']
+        lines = ['From Coq Require Import String Ascii ZArith List.', 'Import ListNotations.', 'Open Scope string_scope.']
         lines += module_imports
+        # results may contain any character: escape the separator (| -> \\p, \\ -> \\\\) before joining
+        lines.append('Fixpoint verif_esc (s : string) : string := match s with EmptyString => EmptyString | String c r => '
+                     'if Ascii.eqb c "|"%char then String "\\"%char (String "p"%char (verif_esc r)) '
+                     'else if Ascii.eqb c "\\"%char then String "\\"%char (String "\\"%char (verif_esc r)) else String c (verif_esc r) end.')
         lines.append('Definition results : list string := [')
         lines.append(';\n'.join('  (%s)' % e for e in part))
         lines.append('].')
-        lines.append('Definition joined := String.concat "|" results.')
+        lines.append('Definition joined := String.concat "|" (map verif_esc results).')
         lines.append('Eval vm_compute in joined.')
         path = os.path.join(wd, '%s_%d.v' % (name, si // shard))
         with open(path, 'w') as f:
@@ -206,7 +210,7 @@ def eval_model(module_imports, exprs, wd, name='cases', timeout=900):
         s = re.sub(r'\n\s*', '', s) if False else s
         # Coq wraps long strings only at spaces; we never emit spaces inside results except via %20 escaping
         s = s.replace('\n', '').replace('""', '"')
-        parts = s.split('|')
+        parts = [re.sub(r'\\(.)', lambda mm: '|' if mm.group(1) == 'p' else mm.group(1), x) for x in s.split('|')]
         n_expected = min(shard, len(exprs) - i * shard)
         if len(parts) != n_expected:
             raise RuntimeError('model output count mismatch %d vs %d' % (len(parts), n_expected))
